@@ -223,55 +223,17 @@ def dispatch_rule(ctx, report):
         if eff not in seen_effects:
             report.violation("R-DISPATCH", fn, f"no branch with effect {eff}",
                              {"required_codes": sorted(want)}, "5")
-    # roll depth: RU2/3/4 -> 2/3/4
-    depth = {}
-    for n in walk_no_nested(fn.node):
-        if isinstance(n, ast.If):
-            lits = _literals_tested(n.test, wordname)
-            if len(lits) == 1:
-                for st in n.body:
-                    if isinstance(st, ast.Assign) and len(st.targets) == 1 \
-                            and isinstance(st.targets[0], ast.Attribute) \
-                            and st.targets[0].attr == "roll_rows_expected" \
-                            and isinstance(st.value, ast.Constant):
-                        depth[code_of.get(lits[0], lits[0])] = st.value.value
-    # table form: roll_rows_expected = TABLE[word] / TABLE.get(word) under the roll-up branch
-    for n in walk_no_nested(fn.node):
-        if isinstance(n, ast.Assign) and len(n.targets) == 1 and isinstance(n.targets[0], ast.Attribute) \
-                and n.targets[0].attr == "roll_rows_expected" and not isinstance(n.value, ast.Constant):
-            v = n.value
-            tbl = None
-            if isinstance(v, ast.Subscript) and src(v.slice) == wordname:
-                tbl = v.value
-            elif isinstance(v, ast.Call) and isinstance(v.func, ast.Attribute) and v.func.attr == "get" \
-                    and v.args and src(v.args[0]) == wordname:
-                tbl = v.func.value
-            if tbl is None:
-                raise AnalysisError(f"_translate_command: roll-up depth assignment not recognised: {short(n)}")
-            try:
-                table = folder.eval_in(fn.module, tbl)
-            except AnalysisError as e:
-                raise AnalysisError(f"_translate_command: roll-up depth table not foldable: {e}")
-            if not isinstance(table, dict):
-                raise AnalysisError("_translate_command: roll-up depth table is not a mapping")
-            # only the codes that can reach the assignment count
-            guards = None
-            for m_ in walk_no_nested(fn.node):
-                if isinstance(m_, ast.If) and any(x is n for st in m_.body for x in walk_no_nested(st)):
-                    ls = _literals_tested(m_.test, wordname)
-                    if ls:
-                        guards = set(ls)
-            for k_, v_ in table.items():
-                if guards is None or k_ in guards:
-                    depth[code_of.get(k_, k_)] = v_
-            missing = (guards or set()) - set(table)
-            for k_ in missing:
-                depth[code_of.get(k_, k_)] = "KeyError"
+    # roll depth: RU2/3/4 -> 2/3/4, observed on the reader's state after the whole reader was folded on a one-row
+    # roll-up stream of each depth (how the branch spells the assignment - constants, a table, a helper - is its business)
+    from . import scc_e2e_fold
     want_depth = {"RU2": 2, "RU3": 3, "RU4": 4}
-    if not depth:
-        raise AnalysisError("_translate_command: no assignment of the roll-up depth found")
-    got = {k: v for k, v in depth.items() if k in want_depth}
-    report.check(got == want_depth, "R-DISPATCH", fn, "roll-up depth per RU2/RU3/RU4",
+    eng = scc_e2e_fold.Engine(ctx)
+    depth = {}
+    for d_ in (2, 3, 4):
+        doc = scc_e2e_fold.rollup_stream(d_, [["ROW"]], 1, False, True)
+        me = eng.reader_after(doc)
+        depth[f"RU{d_}"] = me.attrs.get("roll_rows_expected") if hasattr(me, "attrs") else me
+    report.check(depth == want_depth, "R-DISPATCH", fn, "roll-up depth per RU2/RU3/RU4",
                  {"found": depth, "required": want_depth}, "5")
 
 
